@@ -1,0 +1,21 @@
+//! Read-only verification hooks (feature `verif-hooks`).
+use crate::set::node::Color;
+use crate::set::sort::KeyValue;
+use crate::set::tree::SetTree;
+use crate::verif::VerifSnapshot;
+
+impl<K: Ord, V: Clone + Default + KeyValue<K>> SetTree<K, V> {
+    pub fn verif_snapshot(&self) -> VerifSnapshot {
+        VerifSnapshot {
+            root: self.root,
+            links: self.store.buffer.iter().map(|n| [n.parent, n.left, n.right]).collect(),
+            red: self.store.buffer.iter().map(|n| n.color == Color::Red).collect(),
+            unused: self.store.unused.clone(),
+        }
+    }
+
+    /// Value stored in `slot` (checked access; meaningful for slots that are part of the tree).
+    pub fn verif_val_at(&self, slot: u32) -> &V {
+        &self.store.buffer[slot as usize].value
+    }
+}
